@@ -300,7 +300,11 @@ def _trace_summary(sim):
     trees = getattr(tracer, "trees", None)
     if trees is None:
         return [bool(sim.trace), len(tracer.stack)]
-    return [bool(sim.trace), len(tracer.stack), [f"{t.name}<{t.period}>" for t in trees]]
+    def node(n):
+        # what was calculated, what its formula read - variables and parameters
+        return [f"{n.name}<{n.period}>", sorted(f"{p.name}<{p.period}>" for p in n.parameters), [node(c) for c in n.children]]
+
+    return [bool(sim.trace), len(tracer.stack), [node(t) for t in trees]]
 
 
 def _on_disk(sim, key):
